@@ -1074,7 +1074,7 @@ def gen_pipeline():
 # what the package's own code may depend on besides its arguments
 # --------------------------------------------------------------------------
 
-AMBIENT_MODULES = {"os", "sys", "time", "datetime", "pathlib", "locale", "platform", "getpass", "socket", "uuid", "tempfile", "shutil", "glob",
+AMBIENT_MODULES = {"decimal", "os", "sys", "time", "datetime", "pathlib", "locale", "platform", "getpass", "socket", "uuid", "tempfile", "shutil", "glob",
                    "subprocess", "threading", "multiprocessing", "signal", "gc", "io", "atexit", "ctypes", "resource", "secrets", "calendar",
                    "logging", "warnings", "weakref", "contextvars", "asyncio", "queue", "sched", "fcntl", "select", "mmap", "zoneinfo", "urllib",
                    "http", "importlib", "pkgutil", "site", "sysconfig", "builtins", "inspect", "traceback", "linecache", "tracemalloc", "faulthandler"}
